@@ -425,7 +425,7 @@ def check_sinks_mode(ctx, prog, I, gold, step, kind, sqi=None, pc=None, detail_s
             if want_push and d in push and len(push[d]) == 1:
                 pb_ = push[d][0][3].bits[s]
                 if pb_ is not C0:
-                    okdup = ((('#', id(pb_)), False) in B.must(gate)) or B.band(gate, pb_) is C0
+                    okdup = ((('#', pb_.n), False) in B.must(gate)) or B.band(gate, pb_) is C0
             ctx.ob('[%s] pull %s%s: enemy literal, footprint, not duplicating the push start' % (mode, G.name(s), d),
                    okm and okd and okdup, sample=(d == 'Right'))
             if not okm:
